@@ -1211,6 +1211,17 @@ func (e *Engine) evalCall(env *Env, x *Expr) Val {
 			return mkBool("(valid_bech32 " + term(0, SStr).T + ")")
 		}
 	}
+	if x.Name == "errAck" || x.Name == "resAck" {
+		evalArgs()
+		f := map[string]string{"errAck": "errAckBytes", "resAck": "resAckBytes"}[x.Name]
+		e.C.DeclareFun(f, []Sort{SStr}, SStr)
+		return mk(SStr, "("+f+" "+term(0, SStr).T+")")
+	}
+	if x.Name == "errtext" {
+		evalArgs()
+		e.C.DeclareFun("err_text", []Sort{SErr}, SStr)
+		return mk(SStr, "(err_text "+term(0, SErr).T+")")
+	}
 	if x.Name == "isErrorAck" || x.Name == "isResultAck" {
 		// the Response oneof of a packettypes.Acknowledgement value
 		evalArgs()
